@@ -2,9 +2,10 @@
 import fam_expander
 import fam_urls
 import fam_small
+import fam_state
 
 CHECKS = {}
 REPLAY = {}
-for m in (fam_expander, fam_urls, fam_small):
+for m in (fam_expander, fam_urls, fam_small, fam_state):
     CHECKS.update(m.CHECKS)
     REPLAY.update(getattr(m, 'REPLAY', {}))
